@@ -212,6 +212,35 @@ def family_c11(prop, fail, unit_res, repo, verif, build):
 FAMILIES["C11"] = family_c11
 
 
+def family_c21(prop, fail, unit_res, repo, verif, build, timeout=1200):
+    """replay/c21_shim: the real octopii/src/wal/mod.rs (WriteAheadLog) + the engine copy vendored with it; tokio and crate::error are shims."""
+    d = os.path.join(build, "replay-c21_shim")
+    if os.path.exists(d):
+        shutil.rmtree(d)
+    shutil.copytree(os.path.join(verif, "replay", "c21_shim"), d, ignore=shutil.ignore_patterns("target"))
+    lib = os.path.join(d, "src", "lib.rs")
+    src = open(lib).read().replace("@WALMOD@", os.path.join(repo, "octopii/src/wal/mod.rs"))
+    open(lib, "w").write(src)
+    if os.path.exists(os.path.join(repo, "Cargo.lock")):
+        shutil.copy(os.path.join(repo, "Cargo.lock"), os.path.join(d, "Cargo.lock"))
+    env = dict(os.environ, CARGO_NET_OFFLINE="true", CARGO_TARGET_DIR=os.path.join(build, "replay-c21_shim-target"), WALRUS_QUIET="1")
+    scratch = os.path.join(build, "replay-scratch-c21")
+    shutil.rmtree(scratch, ignore_errors=True)
+    os.makedirs(scratch, exist_ok=True)
+    p = subprocess.run(["cargo", "run", "--offline", "--release", "-q", "--bin", "c21_family", "--", scratch], cwd=d, env=env, capture_output=True, text=True, timeout=timeout)
+    shutil.rmtree(scratch, ignore_errors=True)
+    last = [l for l in p.stdout.splitlines() if l.startswith("{")]
+    if not last:
+        return dict(counterexample=None, counterexample_search="c21_shim gave no verdict (rc=%d): %s" % (p.returncode, p.stderr[-600:]))
+    v = json.loads(last[-1])
+    if v.get("found"):
+        return dict(counterexample=v, counterexample_search="scenario family replay/c21_shim/c21_family run natively against the real WriteAheadLog (tokio stand-in)")
+    return dict(counterexample=None, counterexample_search="scenario family c21_shim/c21_family: %s histories, none failed" % v.get("tried"))
+
+
+FAMILIES["C21"] = family_c21
+
+
 def family_c13(prop, fail, unit_res, repo, verif, build):
     return _core_replay("c13_family", lambda scratch: [scratch], repo, verif, build)
 
